@@ -178,7 +178,9 @@ def generate(rng, tier):
             if rng.random() < 0.06:
                 # the thread first attaches one more (do-nothing) adapter to the chosen connection with the public
                 # add_adapter(): the connection, and all derived from it before and after, keep their one sequence
-                op["late_adapter"] = True
+                # (or one that stamps an id of its own where the caller gave none: only requests through that very
+                # connection object may ever carry it)
+                op["late_adapter"] = rng.choice([True, "id"])
             ops.append(op)
             k += 1
     rng.shuffle(ops)
@@ -318,10 +320,24 @@ def caller_id(op):
     return op["own_id"]
 
 
+_LATE_TARGETS = {}     # tag of an id-stamping adapter attached during the run -> the connection object it was attached to
+_OBJS = []
+
+
+def _target(w):
+    """the connection object a request through wrapper w starts from"""
+    return w.http_conn if hasattr(w, "http_conn") else w
+
+
 def do_request(objs, spec, op):
     w = objs[op["w"] % len(objs)]
     if op.get("late_adapter"):
-        (w.http_conn if hasattr(w, "http_conn") else w).add_adapter(hw.conn_http.RequestAdapter())
+        target = _target(w)
+        if op["late_adapter"] == "id":
+            _LATE_TARGETS[f"late{op['k']}"] = target
+            target.add_adapter(make_id_setter({"mode": "default", "tag": f"late{op['k']}"}))
+        else:
+            target.add_adapter(hw.conn_http.RequestAdapter())
     if op.get("hdr_shared") is not None and op.get("own_id") is None and not op.get("derive"):
         shared = _SHARED_HEADERS.setdefault(op["hdr_shared"], {"X-Shared": f"s{op['hdr_shared']}"})
         kw = {"headers": shared}
@@ -355,7 +371,9 @@ def execute(trace, rng):
     hw.set_debug_logging(bool(trace.get("debug_log")))
     _SHARED_HEADERS.clear()
     _FUTURE_IDS.clear()
+    _LATE_TARGETS.clear()
     objs = build_world(spec)
+    _OBJS[:] = objs
     sim = ThreadSim(policy_spec=trace.get("policy"), rng=rng,
                     schedule=trace.get("schedule") if rng is None else None, log=log)
     tr.sim = sim
@@ -481,6 +499,15 @@ def check(spec, ops, tr, outcomes):
                 if rid != want or isinstance(rid, bytes) != isinstance(want, bytes):
                     raise Violation("reqid", "caller-id-changed",
                                     f"op {op['k']}: sent {rid!r}, caller gave {want!r}")
+                continue
+            if isinstance(rid, str) and rid in _LATE_TARGETS:
+                # the id of an adapter attached with add_adapter() during the run: requests that start from the
+                # connection object it was attached to may carry it (from the moment it is there), nobody else
+                wi = op["w"] % len(spec["wrappers"])
+                if _target(_OBJS[wi]) is not _LATE_TARGETS[rid]:
+                    raise Violation("reqid", "foreign-adapter-id",
+                                    f"op {op['k']} through wrapper {wi} carries {rid!r}: that adapter was attached "
+                                    f"to another connection object")
                 continue
             if not imp["ids"]:
                 if rid is not None:
